@@ -5,6 +5,7 @@ Property theorems only; lemmas live in Neutrino/Lemmas.
 import Neutrino.Spec.Dispatcher
 import Neutrino.Lemmas.Dispatcher
 import Neutrino.Lemmas.DispatcherJobs
+import Neutrino.Lemmas.DispatcherRank
 import Neutrino.Lemmas.Worker
 import Neutrino.Gen.Worker
 import Neutrino.Gen.Dispatcher
@@ -16,7 +17,11 @@ result channel inside the dispatcher loop is followed by
 `delete(currentBatches, …)` in the same block, the only other send is the exit
 `defer`; the channel has capacity 1; a failed job is pushed back as the same
 object (same index); the queue orders by index; the ranking orders by
-ascending score. -/
+ascending score; every select that offers a job on a worker's `NewJob()`
+channel is blocking (none has a `default` arm: the dispatcher stays with the
+worker it is offering the job to until that worker takes it, exits, or the work
+manager quits); nothing in peer_rank.go can remove an entry from the score map
+(no `delete`, no `clear`, the map is never re-assigned). -/
 theorem C12_source_facts :
     Gen.Dispatcher.minQueryTimeoutSec = 2 ∧ Gen.Dispatcher.maxQueryTimeoutSec = 32 ∧
     Gen.Dispatcher.defaultNumRetries = 2 ∧
@@ -24,7 +29,9 @@ theorem C12_source_facts :
     Gen.Dispatcher.verdictSends = 5 ∧ Gen.Dispatcher.verdictSendsFollowedByDelete = 5 ∧
     Gen.Dispatcher.shutdownSendsInDefer = 1 ∧ Gen.Dispatcher.errChanCapOne = true ∧
     Gen.Dispatcher.requeueSameJob = true ∧ Gen.Dispatcher.heapPushes = 2 ∧
-    Gen.Dispatcher.queueOrderedByIndex = true ∧ Gen.Dispatcher.orderAscendingScore = true := by decide
+    Gen.Dispatcher.queueOrderedByIndex = true ∧ Gen.Dispatcher.orderAscendingScore = true ∧
+    1 ≤ Gen.Dispatcher.jobOfferSelects ∧ Gen.Dispatcher.jobOfferSelectsWithDefault = 0 ∧
+    Gen.Dispatcher.rankRemovals = 0 := by decide
 
 /-- number of verdicts written to batch `b`'s result channel so far -/
 def verdictCount (s : State) (b : Nat) : Nat := (s.verdicts.filter (fun x => x.1 == b)).length
@@ -67,7 +74,11 @@ theorem C12_batch_numbers (s : State) (n : Nat) (nrm : Bool) (mr : Nat) (pr hn :
 
 /-- **Ranking** — whenever the dispatcher hands out a job, it is the head of
 the queue and goes to a worker that is free, still running, and whose score no
-free worker beats. -/
+free worker beats: minimal among ALL free running workers (`freeLive`: no
+active job by the dispatcher's bookkeeping, `Run` not returned), whether or not
+they are receiving on their job channel at that moment — being at the channel
+is not part of the state the hand-out looks at (`C12_rank_waits_for_best` makes
+the not-yet-receiving workers explicit). -/
 theorem C12_rank (s : State) (p idx tries to : Nat)
     (h : (step s (.accept p)).2 = [.dispatched p idx tries to]) :
     bestFree s p = true ∧ ∃ job rest, s.work = job :: rest ∧ job.idx = idx ∧
@@ -88,6 +99,175 @@ theorem C12_rank (s : State) (p idx tries to : Nat)
         simp only [bestFree, Bool.and_eq_true, List.all_eq_true, decide_eq_true_eq] at hb
         exact hb.2 q hqm
       · simp only [hb, Bool.false_eq_true, ↓reduceIte] at h; cases h
+
+
+/-- **The dispatcher waits for the best-ranked free worker** — the offer loop
+over any list `Order` may produce in state `s` (`RankedFree`), for EVERY
+assignment `fate` of what each free worker does while the job is on offer:
+take it at once (`takes 0`: it is receiving on its job channel), take it later
+(`takes (n+1)`: free by the bookkeeping but not yet back at its channel — a real
+worker that has just delivered a result), or exit.  The worker `p` that ends up
+with the job does not exit, everything ranked ahead of it exited, and no free
+running worker that stays — receiving or not — has a strictly better score.  In
+particular a worse-ranked worker that is already waiting at its channel never
+gets the job while a better-ranked free one is merely not there yet. -/
+theorem C12_rank_waits_for_best (s : State) (fate : Nat → Fate) (l : List Nat) (p : Nat)
+    (hl : RankedFree s fate l) (h : offerLoop fate l = some p) :
+    fate p ≠ .exits ∧
+    (∃ pre post, l = pre ++ p :: post ∧ ∀ q ∈ pre, fate q = .exits) ∧
+    (∀ w ∈ freeLive s, fate w.addr ≠ .exits → scoreOf s.rank p ≤ scoreOf s.rank w.addr) ∧
+    (∀ w ∈ freeLive s, ∀ n, fate w.addr = .takes (n + 1) → scoreOf s.rank p ≤ scoreOf s.rank w.addr) := by
+  have hs := offerLoop_spec fate l p h
+  have hm := offerLoop_minimal s.rank fate l p hl.sorted h
+  refine ⟨hs.1, hs.2, ?_, ?_⟩
+  · intro w hw hne
+    exact hm w.addr (hl.all w hw) hne
+  · intro w hw n hn
+    exact hm w.addr (hl.all w hw) (by rw [hn]; exact fun c => Fate.noConfusion c)
+
+/-- **… and that is the model's `accept`** — once the exits the loop saw have
+happened (as `exit` events), the worker the loop picks is a best-ranked free
+running worker of the resulting state, so `accept p` is enabled there and hands
+out the head of the queue: `offerLoop` refines the dispatcher model's
+scheduling, it adds no behaviour. -/
+theorem C12_offer_is_accept (s : State) (hq : s.quit = false) (fate : Nat → Fate) (l : List Nat) (p : Nat)
+    (hl : RankedFree s fate l) (h : offerLoop fate l = some p) :
+    let s' := run s ((l.filter (fun q => fate q == .exits)).map Ev.exit)
+    bestFree s' p = true ∧
+    ∀ job rest, s.work = job :: rest →
+      (step s' (.accept p)).2 = [.dispatched p job.idx job.tries job.timeout] := by
+  intro s'
+  obtain ⟨hfree, hquit, hrank, hwork⟩ := run_exits s (l.filter (fun q => fate q == .exits)) hq
+  have hs := offerLoop_spec fate l p h
+  have hm := offerLoop_minimal s.rank fate l p hl.sorted h
+  have hpl : p ∈ l := by
+    obtain ⟨pre, post, e, _⟩ := hs.2
+    rw [e]; exact List.mem_append.mpr (Or.inr List.mem_cons_self)
+  have hbest : bestFree s' p = true := by
+    show bestFree (run s ((l.filter (fun q => fate q == .exits)).map Ev.exit)) p = true
+    unfold bestFree
+    rw [hfree, hrank]
+    simp only [Bool.and_eq_true, List.any_eq_true, List.all_eq_true, List.mem_filter, decide_eq_true_eq,
+      Bool.not_eq_true', List.contains_eq_mem, decide_eq_false_iff_not, beq_iff_eq, and_imp]
+    constructor
+    · have ha := hl.live p hpl hs.1
+      simp only [List.any_eq_true, beq_iff_eq] at ha
+      obtain ⟨w, hw, hwp⟩ := ha
+      refine ⟨w, ⟨hw, ?_⟩, hwp⟩
+      rw [hwp]
+      intro hc
+      exact hs.1 (hc.2)
+    · intro w hw hnot
+      apply hm w.addr (hl.all w hw)
+      intro hc
+      exact hnot ⟨hl.all w hw, hc⟩
+  refine ⟨hbest, ?_⟩
+  intro job rest hw
+  have hw' : s'.work = job :: rest := by
+    show (run s ((l.filter (fun q => fate q == .exits)).map Ev.exit)).work = _
+    rw [hwork]; exact hw
+  have hq' : s'.quit = false := hquit
+  simp only [step, hq', Bool.false_eq_true, ↓reduceIte, stepAccept, hw', hbest]
+
+/-- What the statement rules out: a first non-blocking pass over the ranked list
+("give it to whoever takes it right away") hands the job to a worse-ranked
+worker whenever the best-ranked free one is momentarily not receiving. -/
+theorem C12_eager_offer_counterexample :
+    let s := run init [.peer 1, .peer 2, .newBatch 2 true 0 false false, .accept 1, .accept 2, .result 1 .ok, .result 2 .other]
+    let fate : Nat → Fate := fun q => if q = 1 then .takes 1 else .takes 0
+    scoreOf s.rank 1 = 3 ∧ scoreOf s.rank 2 = 5 ∧
+    offerLoop fate [1, 2] = some 1 ∧ offerLoopEager fate [1, 2] = some 2 := by decide
+
+/-- **A record survives peer churn (1): the ranking itself** — ranking calls
+that name other addresses — any number of `AddPeer` for peers that come and go,
+and their rewards, punishments and resets — leave a peer's entry exactly as it
+was: still known (so `Reward` / `Punish` keep applying to it), same score. -/
+theorem C12_rank_survives_churn (r : List (Nat × Nat)) (ops : List RankOp) (p : Nat)
+    (h : ∀ o ∈ ops, o.addr ≠ p) :
+    (rankRun r ops).lookup p = r.lookup p ∧ scoreOf (rankRun r ops) p = scoreOf r p := by
+  have hl := lookup_rankRun_other r ops p h
+  exact ⟨hl, by simp only [scoreOf, hl]⟩
+
+/-- … so after any history the score of `p` is a function of the calls that name
+`p` alone — exactly the score the driver's oracle computes from `p`'s own
+history (`ownScore`), whatever else the ranking was told in between; and
+`Order` compares these. -/
+theorem C12_rank_own_history (hist : List RankOp) (p : Nat) :
+    scoreOf (rankRun [] hist) p = ownScore hist p := by
+  have h1 := rankRun_congr [] [] hist p rfl
+  have h2 : ∀ (ops : List RankOp) (r : List (Nat × Nat)), (∀ o ∈ ops, o.addr = p) →
+      (rankRun r ops).lookup p = ops.foldl ownStep (r.lookup p) := by
+    intro ops
+    induction ops with
+    | nil => intro r _; rfl
+    | cons o os ih =>
+      intro r ho
+      simp only [rankRun, List.foldl_cons]
+      rw [ih _ (fun o' ho' => ho o' (List.mem_cons_of_mem _ ho'))]
+      congr 1
+      have hop := ho o List.mem_cons_self
+      cases o with
+      | add q =>
+        simp only [RankOp.addr] at hop; subst hop
+        simp only [rankStep, addPeer, ownStep]
+        cases hl : r.lookup q with
+        | some v => simp only [hl, Option.getD_some]
+        | none => simp only [setScore, List.lookup, beq_self_eq_true, Option.getD_none]
+      | reward q =>
+        simp only [RankOp.addr] at hop; subst hop
+        simp only [rankStep, reward, ownStep]
+        cases hl : r.lookup q with
+        | none => simp only [hl, Option.map_none]
+        | some v =>
+          simp only [Option.map_some]
+          split
+          · exact hl
+          · simp only [setScore, List.lookup, beq_self_eq_true]
+      | punish q =>
+        simp only [RankOp.addr] at hop; subst hop
+        simp only [rankStep, punish, ownStep]
+        cases hl : r.lookup q with
+        | none => simp only [hl, Option.map_none]
+        | some v =>
+          simp only [Option.map_some]
+          split
+          · exact hl
+          · simp only [setScore, List.lookup, beq_self_eq_true]
+      | reset q =>
+        simp only [RankOp.addr] at hop; subst hop
+        simp only [rankStep, resetRank, ownStep]
+        cases hl : r.lookup q with
+        | none => simp only [hl, Option.map_none]
+        | some v => simp only [Option.map_some, setScore, List.lookup, beq_self_eq_true]
+  have h3 := h2 (hist.filter (fun o => o.addr == p)) [] (by
+    intro o ho
+    have := (List.mem_filter.mp ho).2
+    simpa only [beq_iff_eq] using this)
+  simp only [scoreOf, ownScore, ownEntry, h1, h3, List.lookup]
+
+/-- **A record survives peer churn (2): the dispatcher** — in EVERY state, an
+event that is not a result reported by `p` itself leaves `p`'s score where it
+was: peers connecting (new addresses, or `p`'s own address again), workers
+exiting, batches, wakes, deadlines, hand-outs, other peers' results, shutdown.
+Hence for every event list without a result from `p` — any amount of peer
+churn — `p` is ranked as before. -/
+theorem C12_record_persists (s : State) (es : List Ev) (p : Nat)
+    (h : ∀ e ∈ es, ∀ err, e ≠ .result p err) :
+    scoreOf (run s es).rank p = scoreOf s.rank p := by
+  induction es generalizing s with
+  | nil => rfl
+  | cons e es ih =>
+    simp only [run]
+    rw [ih _ (fun e' he' => h e' (List.mem_cons_of_mem _ he'))]
+    exact step_scoreOf_other s e p (h e List.mem_cons_self)
+
+/-- What the statement rules out: were `AddPeer` to make room by dropping some
+other address's entry (a ranking bounded by eviction), a connected peer's
+earned score would silently fall back to the default. -/
+theorem C12_evicting_ranking_counterexample :
+    let r := rankRun [] [.add 1, .reward 1, .reward 1, .add 2]
+    let evict (victim : Nat) (r : List (Nat × Nat)) (q : Nat) := addPeer (r.filter (fun x => x.1 != victim)) q
+    scoreOf r 1 = 2 ∧ scoreOf (addPeer r 3) 1 = 2 ∧ scoreOf (evict 1 r 3) 1 = 4 := by decide
 
 /-- **Scores move as specified (1)** — a result for a live batch changes the
 ranking exactly by result kind: OK rewards the reporting peer, a disconnect
@@ -355,6 +535,31 @@ example :
     let s := run init [.peer 1, .peer 2, .newBatch 1 false 2 false false, .accept 1, .result 1 .other]
     (step s (.accept 1)).2 = [.ignored] ∧ (step s (.accept 2)).2 = [.dispatched 2 0 1 2] := by decide
 
+/-- `C12_rank_waits_for_best` / `C12_offer_is_accept`: worker 1 (score 3) has just delivered a result and is not back
+at its channel, worker 2 (score 5) is waiting at its own: the hypotheses hold and the re-issued job goes to worker 1 -/
+example :
+    let s := run init [.peer 1, .peer 2, .newBatch 2 true 0 false false, .accept 1, .accept 2, .result 1 .ok, .result 2 .other]
+    let fate : Nat → Fate := fun q => if q = 1 then .takes 1 else .takes 0
+    s.quit = false ∧ (freeLive s).map (·.addr) = [2, 1] ∧ scoreOf s.rank 1 = 3 ∧ scoreOf s.rank 2 = 5 ∧
+    offerLoop fate [1, 2] = some 1 ∧ (step s (.accept 1)).2 = [.dispatched 1 1 0 2] ∧
+    (step s (.accept 2)).2 = [.ignored] := by decide
+example : RankedFree (run init [.peer 1, .peer 2, .newBatch 2 true 0 false false, .accept 1, .accept 2, .result 1 .ok, .result 2 .other])
+    (fun q => if q = 1 then .takes 1 else .takes 0) [1, 2] := by
+  refine ⟨by decide, by decide, by decide⟩
+/-- `C12_rank_survives_churn` / `C12_record_persists`: 130 other addresses come and go, peer 1 keeps its 3 -/
+example :
+    let churn : List Ev := (List.range 130).flatMap (fun i => [Ev.peer (100 + i), Ev.exit (100 + i)])
+    let s := run init [.peer 1, .newBatch 3 true 0 false false, .accept 1, .result 1 .ok]
+    scoreOf s.rank 1 = 3 ∧ (∀ e ∈ churn, ∀ err, e ≠ Ev.result 1 err) := by
+  refine ⟨by decide, ?_⟩
+  intro e he err hc
+  subst hc
+  simp only [List.mem_flatMap, List.mem_range, List.mem_cons, List.not_mem_nil, reduceCtorEq, or_self,
+    and_false, exists_false] at he
+example : ownScore [.add 1, .reward 1, .add 7, .punish 2, .reward 1, .add 2, .punish 2] 1 = 2 ∧
+    ownScore [.add 1, .reward 1, .add 7, .punish 2, .reward 1, .add 2, .punish 2] 2 = 5 ∧
+    ownScore [.add 1] 9 = 4 := by decide
+
 end Neutrino.Disp
 
 /-! ## The worker loop (query/worker.go `Run`) -/
@@ -362,20 +567,26 @@ namespace Neutrino.Wrk
 open Neutrino.Disp (Err)
 
 /-- The arms of the four selects of `worker.Run` as regenerated from the source
-on this run, and what the model derives from them: both pre-check cancel arms
-`break` out of the select into the wait loop (they neither `continue` nor
-`return`), the default arm sends the request, every wait arm that holds a job
-leaves the loop with `break Loop` and the error it stands for, `quit` returns,
-the hand-off select sends or returns on quit, and `Run` returns after an
-`ErrPeerDisconnected` result. -/
+on this run, and what the model derives from them.  A channel is named by its
+ROLE (the parameter of type `chan<- *jobResult` / `<-chan struct{}`, the
+channel obtained from `SubscribeRecvMsg()`, the result of `OnDisconnect()`,
+the `.C` of a `time.NewTimer` timer, the struct fields `nextJob`, `cancelChan`,
+`internalCancelChan`), the error is whatever is assigned to the variable that
+is stored in the `err` field of the result sent, and the wait loop's label is
+written `Loop`: no local, receiver or label name enters the facts.  Both
+pre-check cancel arms `break` out of the select into the wait loop (they
+neither `continue` nor `return`), the default arm sends the request, every wait
+arm that holds a job leaves the loop with `break Loop` and the error it stands
+for, `quit` returns, the hand-off select sends or returns on quit, and `Run`
+returns after an `ErrPeerDisconnected` result. -/
 theorem C12_worker_source_facts :
     Arms.ofSource = Arms.good ∧
-    Gen.Worker.idleArms = [("w.nextJob", "", "fall"), ("msgChan", "", "continue"),
-      ("peer.OnDisconnect()", "", "return"), ("quit", "", "return")] ∧
+    Gen.Worker.idleArms = [("nextJob", "", "fall"), ("peerMsg", "", "continue"),
+      ("peerDisconnect", "", "return"), ("quit", "", "return")] ∧
     Gen.Worker.precheckArms = [("job.cancelChan", "", "break"), ("job.internalCancelChan", "", "break"),
       ("default", "", "fall")] ∧
-    Gen.Worker.waitArms = [("msgChan", "", "finished:break Loop;unfinished:continue Loop"), ("timeout.C", "ErrQueryTimeout", "break Loop"),
-      ("peer.OnDisconnect()", "ErrPeerDisconnected", "break Loop"), ("job.cancelChan", "ErrJobCanceled", "break Loop"),
+    Gen.Worker.waitArms = [("peerMsg", "", "finished:break Loop;unfinished:continue Loop"), ("jobTimer", "ErrQueryTimeout", "break Loop"),
+      ("peerDisconnect", "ErrPeerDisconnected", "break Loop"), ("job.cancelChan", "ErrJobCanceled", "break Loop"),
       ("job.internalCancelChan", "ErrJobCanceled", "break Loop"), ("quit", "", "return")] ∧
     Gen.Worker.reportArms = [("results<-", "", "fall"), ("quit", "", "return")] ∧
     Gen.Worker.waitQuitReturns = true ∧ Gen.Worker.reportSendsOrQuits = true := by decide
